@@ -3,7 +3,8 @@
   R-C09-partition        simplified_json_from_root: a PASS rule goes to `compliant`, SKIP to `not_applicable`, FAIL to neither;
                          the file status is the FileCheck record's status; not_compliant is what the builder returns for the
                          root's children; FileReport::combine folds statuses with Status::and over an accumulator that starts
-                         at the identity (SKIP) and unions the three sets
+                         at the identity (SKIP) and unions the three sets, each with the WHOLE bucket of the same name; the folds that
+                         collect rules files (get_rule_info, StructuredEvaluator::evaluate) and data files keep every element once
   R-C09-builder          report_all_failed_clauses_for_rules, per record kind x status: a FAIL rule is listed exactly once and
                          unconditionally; FAIL containers are descended into (so the record variants the evaluator emits are all
                          handled); nothing is listed or descended for a record that is not FAIL (no failing check is attributed
@@ -40,11 +41,13 @@ def partition(ctx, cr):
     built = []
 
     class H(ai.Hooks):
+        lazy_pipes = True       # `children.iter().filter_map(..).collect::<BTreeSet<_>>()` is the insert loop it abbreviates
+
         def call(self, a, st, term, callee, args):
             p = M.norm_path(callee.get("path", ""))
             decl = M.norm_path(callee.get("decl", ""))
             mon = st.mon or Mon()
-            if p.endswith("BTreeSet::insert") or p.endswith("HashSet::insert") or p.endswith("IndexSet::insert"):
+            if p.endswith("BTreeSet::insert") or p.endswith("HashSet::insert") or p.endswith("IndexSet::insert") or p == "model::collect_item":
                 tgt = a.resolve(st, args[0])
                 cell = a.resolve(st, a.read_at(st, tgt[1], tgt[2])) if tgt[0] == "ref" else None
                 inserts.append((mon.get("status"), cell))
@@ -54,6 +57,11 @@ def partition(ctx, cr):
             if callee.get("key") == BUILDER:
                 return [(("sym", "NOT_COMPLIANT"), mon)]
             if decl == "std::iter::Iterator::next" and term.get("to") is not None:
+                it = a.resolve(st, args[0])
+                if it[0] == "ref":
+                    it = a.resolve(st, a.read_at(st, it[1], it[2]))
+                if ai.is_pipe(it):
+                    return None
                 return [(("enum", ai.OPTION, 1, (("ref", ("X", "ELEMCELL"), ()),)), mon.set(status=None, kind=None)), (("enum", ai.OPTION, 0, ()), mon.set(status=None, kind=None, done=True))]
             return None
 
@@ -510,14 +518,6 @@ def every_rules_file_kept(ctx):
             def ret(self, a, st, v):
                 rets.append((v, st.mon or Mon()))
 
-            def loop_of(self, st):
-                for fr in reversed(st.frames):
-                    if fr.fkey.startswith(SE + "::{closure"):
-                        return fr.fkey[len(SE) + 2:].split("::")[0]
-                    if fr.body.get("closure", "").startswith(SE + "::{closure"):
-                        return fr.body["closure"][len(SE) + 2:].split("::")[0]
-                return "body"
-
             def call(self, a, st, term, callee, args):
                 p = M.norm_path(callee.get("path", ""))
                 decl = M.norm_path(callee.get("decl", ""))
@@ -528,17 +528,19 @@ def every_rules_file_kept(ctx):
                         it = a.resolve(st, a.read_at(st, it[1], it[2]))
                     if ai.is_pipe(it):
                         return None
-                    lp = self.loop_of(st)
+                    # a loop is identified by its source iterator (named by the site that created it); a push belongs to the loop
+                    # whose element was handed out last
+                    lp = it[1] if it[0] == "sym" else a.site(st)
                     if mon.get("taken:" + lp):
                         return [(("enum", ai.OPTION, 0, ()), mon)]
-                    return [(("enum", ai.OPTION, 1, (a.sym(st, "ITEM:" + lp),)), mon.set(**{"taken:" + lp: True})), (("enum", ai.OPTION, 0, ()), mon)]
+                    return [(("enum", ai.OPTION, 1, (a.sym(st, "ITEM:" + lp),)), mon.set(cur=lp, **{"taken:" + lp: True})), (("enum", ai.OPTION, 0, ()), mon)]
                 if p.endswith("validate::parse_rules"):
-                    lp = self.loop_of(st)
+                    lp = mon.get("cur") or "body"
                     return [(("enum", ai.RESULT, 0, (("enum", ai.OPTION, 1, (("sym", "RULES"),)),)), mon.set(parsed="some", rules_loop=lp)),
                             (("enum", ai.RESULT, 0, (("enum", ai.OPTION, 0, ()),)), mon.set(parsed="none", rules_loop=lp)),
                             (("enum", ai.RESULT, 1, (("sym", "PARSE_ERR"),)), mon.set(parsed="err", rules_loop=lp))]
                 if p == "std::vec::Vec::push":
-                    lp = self.loop_of(st)
+                    lp = mon.get("cur") or "body"
                     return [(("tuple", ()), mon.set(**{"pushes:" + lp: mon.get("pushes:" + lp, 0) + 1}))]
                 if p.endswith("Writer::write_err"):
                     return [(("enum", ai.RESULT, 0, (("tuple", ()),)), mon), (("enum", ai.RESULT, 1, (("sym", "IOERR"),)), mon)]
